@@ -12,6 +12,7 @@ Section OrdFacts.
   Variable pat : rule -> list (key * bool).
   Variable rfree : rule -> bool.
   Variable tfree : kind -> bool.
+  Variable xr : rule -> list (key * key).
   Variable fresh : nat -> nat -> list X.          (* content a finished node adds of its own: counter before, after *)
 
   Definition ciids (items : list (key * value)) : list X := flat_map ic items.
@@ -95,7 +96,8 @@ Section OrdFacts.
     node_rt n = KR r
     /\ ciids (node_items n) = cgroups (pat r) (node_items n)
     /\ seg_ok (pat r) st (node_items n)
-    /\ Forall citem_ok (node_items n).
+    /\ Forall citem_ok (node_items n)
+    /\ Forall (fun pr => kfilter (fst pr) (node_items n) = [] \/ kfilter (snd pr) (node_items n) = []) (xr r).
   Definition cnrel (af : aframe) (n : node) : Prop :=
     ccore (af_rule af) (af_st af) n
     /\ (af_line af = true -> match hdr_line (af_rule af) with Some k => has_line n k | None => True end)
@@ -107,6 +109,7 @@ Section OrdFacts.
   Qed.
 
   Hypothesis Hnodup : forall r, pnodup (pat r) = true.
+  Hypothesis Hxr : forall r k1 k2, In (k1, k2) (xr r) -> key_beq k1 k2 = false.
   Hypothesis Hrfree : forall r, rfree r = true -> pat r = [].
   Hypothesis Htfree : forall k t, tfree k = true -> ic (KT k, VTok t) = [].
   Hypothesis Htrans : forall af n c i v i', cnrel af n -> ready af -> transform_node n c i = TOk v i' ->
@@ -114,20 +117,37 @@ Section OrdFacts.
   Hypothesis Hfresh : forall af n c i v i', rfree (af_rule af) = true -> cnrel af n -> transform_node n c i = TOk v i' -> fresh i i' = [].
 
   (* adding an item: a pattern key advances the progress, any other key must carry nothing *)
+  Lemma abs_empty_sound p st items q : seg_ok p st items -> abs_empty p st q = true -> kfilter q items = [].
+  Proof.
+    unfold abs_empty. intros S. destruct (pindex p q) as [[pos many]|] eqn:Px; [|discriminate]. intros H.
+    apply (S q pos many Px). apply orb_prop in H as [H|H]; [left; now apply Nat.ltb_lt|].
+    apply andb_prop in H as [H1 H2]. apply Nat.eqb_eq in H1. right. split; [exact H1|]. now destruct (snd st).
+  Qed.
+
   Lemma ccore_add r st cur q v st' :
     ccore r st cur -> citem_ok (q, v) ->
+    xr_ok pat xr (mk_aframe r st false false) q = true ->
     match pindex (pat r) q with
     | Some _ => pstep (pat r) st q = Some st'
     | None => ic (q, v) = [] /\ st' = st
     end ->
     ccore r st' (node_add cur q v).
   Proof.
-    intros (Rt & A & S & F) Iv Hs. unfold ccore. rewrite node_rt_add', node_items_add.
+    intros (Rt & A & S & F0 & Xo) Iv Xk Hs. unfold ccore. rewrite node_rt_add', node_items_add.
     split; [exact Rt|].
+    assert (Xn : Forall (fun pr => kfilter (fst pr) (node_items cur ++ [(q, v)]) = [] \/ kfilter (snd pr) (node_items cur ++ [(q, v)]) = []) (xr r)).
+    { unfold xr_ok in Xk. cbn [af_rule af_st] in Xk. rewrite forallb_forall in Xk. rewrite Forall_forall in *. intros [k1 k2] Hin.
+      specialize (Xo _ Hin). specialize (Xk _ Hin). cbn [fst snd] in *. apply andb_prop in Xk as [X1 X2]. rewrite !kfilter_snoc. cbn [fst].
+      destruct (key_beq q k1) eqn:E1, (key_beq q k2) eqn:E2.
+      - exfalso. apply key_beq_eq in E1, E2. subst. pose proof (Hxr _ _ _ Hin) as Ir. rewrite key_beq_refl in Ir. discriminate.
+      - right. rewrite app_nil_r. apply (abs_empty_sound _ _ _ _ S X1).
+      - left. rewrite app_nil_r. apply (abs_empty_sound _ _ _ _ S X2).
+      - rewrite !app_nil_r. exact Xo. }
+    pose proof F0 as F.
     assert (Fa : Forall citem_ok (node_items cur ++ [(q, v)])) by (apply Forall_app; split; [exact F | constructor; [exact Iv | constructor]]).
     destruct (pindex (pat r) q) as [[pos many]|] eqn:Px.
     - destruct (pstep_spec _ _ _ _ _ _ Px Hs) as (-> & Lp & Hm).
-      split; [|split; [|exact Fa]].
+      split; [|split; [|split; [exact Fa | exact Xn]]].
       + rewrite ciids_snoc, A. symmetry. apply (cgroups_snoc_in _ (Hnodup _) _ _ _ pos many Px).
         intros k' pos' m' Hp' L. apply (S k' pos' m' Hp'). left. lia.
       + intros q' pos' many' Hp'. rewrite kfilter_snoc. cbn [fst snd].
@@ -136,7 +156,7 @@ Section OrdFacts.
           intros Em. specialize (Hm Em). destruct (S q pos many Px) as [S1 _]. rewrite (S1 Hm). cbn. lia.
         * rewrite app_nil_r. destruct (S q' pos' many' Hp') as [S1 S2]. split; [|exact S2].
           intros [C|[C C']]; [apply S1; left; lia | discriminate].
-    - destruct Hs as [Hv ->]. split; [|split; [|exact Fa]].
+    - destruct Hs as [Hv ->]. split; [|split; [|split; [exact Fa | exact Xn]]].
       + rewrite ciids_snoc, Hv, app_nil_r, (cgroups_snoc_notin _ _ _ _ Px). exact A.
       + intros q' pos' many' Hp'. rewrite kfilter_snoc.
         assert (E : key_beq q q' = false).
@@ -146,10 +166,10 @@ Section OrdFacts.
 
   Lemma cnrel_weaken a b n : af_le a b = true -> cnrel a n -> cnrel b n.
   Proof.
-    unfold af_le. intros H ((Rt & A & S & F) & Hl & Hh).
+    unfold af_le. intros H ((Rt & A & S & F & Xo) & Hl & Hh).
     apply andb_prop in H as [H H4]. apply andb_prop in H as [H H3]. apply andb_prop in H as [H1 H2].
     apply rule_beq_eq in H1. apply ps_le_spec in H2.
-    unfold cnrel, ccore. rewrite <- H1. split; [split; [exact Rt|]; split; [exact A|]; split; [|exact F]|split].
+    unfold cnrel, ccore. rewrite <- H1. split; [split; [exact Rt|]; split; [exact A|]; split; [|split; [exact F | exact Xo]]|split].
     - intros k pos many Hp. destruct (S k pos many Hp) as [S1 S2]. split; [|exact S2].
       intros C. apply S1. destruct (af_st a) as [ja sa], (af_st b) as [jb sb]. cbn [fst snd] in *.
       destruct H2 as [H2|[H2 H2']]; [lia|]. destruct C as [C|[C C']]; [lia|].
@@ -176,12 +196,12 @@ Section OrdFacts.
   Lemma cnrel_fresh x : cnrel (mk_aframe x (0, false) false false) (Node (KR x) []).
   Proof.
     unfold cnrel, ccore. cbn [af_rule af_st af_line af_hdr node_rt node_items].
-    split; [|split; discriminate]. split; [reflexivity|]. split; [|split; [|constructor]].
+    split; [|split; discriminate]. split; [reflexivity|]. split; [|split; [|split; [constructor | apply Forall_forall; intros pr _; now left]]].
     - unfold ciids. cbn. symmetry. apply cgroups_empty. reflexivity.
     - intros k pos many Hp. split; [reflexivity | cbn; lia].
   Qed.
 
-  Lemma o_start k x stk stk' bstack : o_prod pat rfree tfree k (PS x) stk = Some stk' -> csrel stk bstack ->
+  Lemma o_start k x stk stk' bstack : o_prod pat rfree tfree xr k (PS x) stk = Some stk' -> csrel stk bstack ->
     csrel stk' (Node (KR x) [] :: bstack) /\ stack_c (Node (KR x) [] :: bstack) = stack_c bstack.
   Proof.
     intros D (nodes & root & E & F & R). cbn in D. destruct stk as [|f tl]; [discriminate|]. inversion D; subst stk'. split.
@@ -192,7 +212,7 @@ Section OrdFacts.
   (* ---- build ---- *)
   Definition bc (k : kind) (t : token) : list X := if kind_beq k KComment then [] else ic (KT k, VTok t).
 
-  Lemma o_build k t stk stk' b b' : o_prod pat rfree tfree k PB stk = Some stk' -> m_type t = Some k -> builder_build t b = BoOk b' ->
+  Lemma o_build k t stk stk' b b' : o_prod pat rfree tfree xr k PB stk = Some stk' -> m_type t = Some k -> builder_build t b = BoOk b' ->
     csrel stk (b_stack b) -> csrel stk' (b_stack b') /\ b_idc b' = b_idc b /\ stack_c (b_stack b') = stack_c (b_stack b) ++ bc k t.
   Proof.
     intros D Mt Bb (nodes & root & E & F & R). cbn in D. destruct stk as [|f tl]; [discriminate|].
@@ -200,14 +220,15 @@ Section OrdFacts.
     destruct (kind_beq k KComment) eqn:Kc.
     - apply kind_beq_eq in Kc. subst k. inversion D; subst stk'. destruct (m_text t); [|discriminate]. inversion Bb; subst b'. cbn [b_stack b_idc].
       split; [exists nodes, root; auto | split; [reflexivity | now rewrite app_nil_r]].
-    - destruct (o_add pat f (KT k) (tfree k)) as [st'|] eqn:Oa; [|discriminate]. inversion D; subst stk'. clear D.
+    - destruct (o_add pat xr f (KT k) (tfree k)) as [st'|] eqn:Oa; [|discriminate]. inversion D; subst stk'. clear D.
       assert (Bb' : match b_stack b with [] => BoCrash | cur :: stk0 => BoOk (mk_bstate (node_add cur (KT k) (VTok t) :: stk0) (b_comments b) (b_idc b)) end = BoOk b').
       { destruct k; try exact Bb. discriminate Kc. }
       clear Bb. inversion F as [|f0 n tl0 nodes' Hn F' E1 E2]; subst. rewrite E in Bb'. cbn [app] in Bb'. inversion Bb'; subst b'. cbn [b_stack b_idc].
       split; [|split; [reflexivity|]].
       + exists (node_add n (KT k) (VTok t) :: nodes'), root. split; [reflexivity|]. split; [|exact R]. constructor; [|exact F'].
         destruct Hn as (Co & Hl & Hh). unfold cnrel. cbn [af_rule af_st af_line af_hdr]. split; [|split].
-        * apply (ccore_add _ _ _ _ _ _ Co); [cbn; eauto|]. unfold o_add in Oa.
+        * unfold o_add in Oa. destruct (xr_ok pat xr f (KT k)) eqn:Xk; [|discriminate].
+          apply (ccore_add _ _ _ _ _ _ Co); [cbn; eauto | exact Xk|].
           destruct (pindex (pat (af_rule f)) (KT k)); [exact Oa|]. destruct (tfree k) eqn:Tf; [|discriminate]. inversion Oa. split; [apply Htfree, Tf | reflexivity].
         * intros Ef. unfold is_hdr_line in Ef. destruct (hdr_line (af_rule f)) as [k'|] eqn:Hk; [|exact I].
           apply orb_prop in Ef as [Ef|Ef]; [apply has_line_snoc, Hl, Ef|].
@@ -217,7 +238,7 @@ Section OrdFacts.
           -- cbn. rewrite kind_beq_refl. cbn. eauto.
           -- assert (Hin0 : In (k0, v0) (filter (fun kv => key_beq (fst kv) (KT k)) (node_items n))) by (rewrite Fl; now left).
              apply filter_In in Hin0 as [Hin Hk0]. cbn in Hk0. apply key_beq_eq in Hk0. subst k0.
-             destruct Co as (_ & _ & _ & Fo). rewrite Forall_forall in Fo. specialize (Fo _ Hin). cbn in Fo. destruct Fo as [t0 ->]. cbn. eauto.
+             destruct Co as (_ & _ & _ & Fo & _). rewrite Forall_forall in Fo. specialize (Fo _ Hin). cbn in Fo. destruct Fo as [t0 ->]. cbn. eauto.
         * intros Ef. specialize (Hh Ef). destruct (hdr_of (af_rule f)); [|exact I]. rewrite node_items_add, kfilter_snoc. intros Xe. apply app_eq_nil in Xe as [Xe _]. auto.
       + rewrite E. cbn [app]. rewrite !stack_c_cons, node_items_add, ciids_snoc, app_assoc. reflexivity.
   Qed.
@@ -227,13 +248,13 @@ Section OrdFacts.
     transform_node n c i = TOk v i' -> citem_ok (KR (af_rule af), v).
   Proof.
     intros R Rl H. destruct v; try exact I. destruct (transform_node_value _ _ _ _ _ H) as [-> ->].
-    cbn. pose proof R as ((Rt & _ & _ & Fo) & Hl & _). split; [exact Rt|]. split; [apply (cnrel_flat _ _ R)|].
+    cbn. pose proof R as ((Rt & _ & _ & Fo & _) & Hl & _). split; [exact Rt|]. split; [apply (cnrel_flat _ _ R)|].
     split.
     { intros x' m' Hin. rewrite Forall_forall in Fo. specialize (Fo _ Hin). cbn in Fo. exact (proj1 (proj2 Fo)). }
     unfold is_header in Rl. destruct (hdr_line (af_rule af)); [apply Hl, Rl; reflexivity | exact I].
   Qed.
 
-  Lemma o_end k x stk stk' b b' : o_prod pat rfree tfree k (PE x) stk = Some stk' -> builder_end x b = BoOk b' ->
+  Lemma o_end k x stk stk' b b' : o_prod pat rfree tfree xr k (PE x) stk = Some stk' -> builder_end x b = BoOk b' ->
     csrel stk (b_stack b) ->
     csrel stk' (b_stack b') /\ b_idc b <= b_idc b' /\ stack_c (b_stack b') = stack_c (b_stack b) ++ fresh (b_idc b) (b_idc b').
   Proof.
@@ -242,7 +263,7 @@ Section OrdFacts.
     destruct (rule_beq x (af_rule f) && (negb (is_header x) || af_line f) && (negb (needs_header x) || af_hdr f)) eqn:C; [|discriminate].
     apply andb_prop in C as [C C3]. apply andb_prop in C as [C1 C2]. apply rule_beq_eq in C1. subst x.
     destruct tl as [|pf tl']; [discriminate|].
-    destruct (o_add pat pf (KR (af_rule f)) (rfree (af_rule f))) as [st'|] eqn:Oa; [|discriminate]. inversion D; subst stk'. clear D.
+    destruct (o_add pat xr pf (KR (af_rule f)) (rfree (af_rule f))) as [st'|] eqn:Oa; [|discriminate]. inversion D; subst stk'. clear D.
     inversion F as [|f0 n tl0 nodes0 Hn F0 E1 E2]; subst. inversion F0 as [|pf0 cur tl1 nodes1 Hc F1 E1 E2]; subst.
     assert (Rd : ready f).
     { split; intros Xe; rewrite Xe in *; cbn in *; assumption. }
@@ -255,7 +276,8 @@ Section OrdFacts.
     split; [|split; [exact Li|]].
     - exists (node_add cur (KR (af_rule f)) v :: nodes1), root. split; [reflexivity|]. split; [|exact R]. constructor; [|exact F1].
       destruct Hc as (Co & Hl & Hh). unfold cnrel. cbn [af_rule af_st af_line af_hdr]. split; [|split].
-      + apply (ccore_add _ _ _ _ _ _ Co Iv). unfold o_add in Oa.
+      + unfold o_add in Oa. destruct (xr_ok pat xr pf (KR (af_rule f))) eqn:Xk; [|discriminate].
+        apply (ccore_add _ _ _ _ _ _ Co Iv Xk).
         destruct (pindex (pat (af_rule pf)) (KR (af_rule f))); [exact Oa|]. destruct (rfree (af_rule f)) eqn:Fr; [|discriminate]. inversion Oa.
         split; [|reflexivity]. rewrite Hv, (Hfresh _ _ _ _ _ _ Fr Hn Tn), app_nil_r, An, (Hrfree _ Fr). reflexivity.
       + intros Ef. specialize (Hl Ef). destruct (hdr_line (af_rule pf)); [apply has_line_snoc, Hl | exact I].
@@ -288,12 +310,12 @@ Section OrdFacts.
     end.
 
   Lemma o_steps k t : m_type t = Some k -> forall ps stk stk' b b',
-    o_prods pat rfree tfree k ps stk = Some stk' -> bsteps t ps b = Some b' -> csrel stk (b_stack b) ->
+    o_prods pat rfree tfree xr k ps stk = Some stk' -> bsteps t ps b = Some b' -> csrel stk (b_stack b) ->
     csrel stk' (b_stack b') /\ b_idc b <= b_idc b' /\ stack_c (b_stack b') = stack_c (b_stack b) ++ added k t ps b.
   Proof.
     intros Mt. induction ps as [|p ps IH]; intros stk stk' b b' D B S; cbn in D, B; cbn [added].
     - inversion D; inversion B; subst. split; [exact S|]. split; [lia | now rewrite app_nil_r].
-    - destruct (o_prod pat rfree tfree k p stk) as [s1|] eqn:D1; [|discriminate].
+    - destruct (o_prod pat rfree tfree xr k p stk) as [s1|] eqn:D1; [|discriminate].
       destruct (bop1 t p b) as [b1|] eqn:B1; [|discriminate].
       assert (Step : csrel s1 (b_stack b1) /\ b_idc b <= b_idc b1
                      /\ stack_c (b_stack b1) = stack_c (b_stack b) ++ match p with PB => bc k t | PE _ => fresh (b_idc b) (b_idc b1) | PS _ => [] end).
